@@ -70,6 +70,10 @@ impl Serialize for F {
 }
 impl<'de> Deserialize<'de> for F {
     fn deserialize<D: Deserializer<'de>>(d: D) -> Result<Self, D::Error> {
+        if !d.is_human_readable() {
+            // byte decoder of the fuzz targets: the raw bit pattern
+            return u64::deserialize(d).map(|b| F(f64::from_bits(b)));
+        }
         let s = String::deserialize(d)?;
         let hex = s.split('|').next().unwrap_or("");
         let hex = hex.trim_start_matches("0x");
